@@ -135,3 +135,7 @@ for _k, _v in FUZZ.items():
 
 # files whose non-test code a property depends on beyond its `anchors.files` (source-drift escalation, state scan)
 PROPS["C06"]["extra_anchors"] = ["src/cards/five.rs", "src/cards/six.rs", "src/cards/seven.rs"]
+# the traits through which hands are ranked, validated, sorted and shifted are declared in src/cards/mod.rs: a method added
+# there can shadow or re-bind the calls of every property that observes a hand
+for _k in ("C01", "C02", "C03", "C05", "C08", "C09", "C11", "C13", "C19"):
+    PROPS[_k].setdefault("extra_anchors", []).append("src/cards/mod.rs")
